@@ -212,9 +212,10 @@ def explodeSem (ev : Term → Out) : List (Part × Opt) → List (VPart × Opt) 
 def objEntrySem (ev : Term → Val → Out) (lookup : String → Option Val) (v : Val) :
     Term × Option Term → Out
   | (.var x, none) =>
+    -- an unbound `$x` is a compile error; as everywhere, the ill-scoped name then means `.`
     match lookup x with
     | some w => .done [.obj [(strVal (x.drop 1).toString, w)]]
-    | none => .done []
+    | none => .done [.obj [(strVal (x.drop 1).toString, v)]]
   | (k, none) =>
     -- `{k}` is `{k: .[k]}`
     cartSem (ev k v) (fun _ => let ok := ev k v; OutG.bind ok.vals ok.stop fun i => OutG.ofExcept (indexV v i))
